@@ -154,6 +154,18 @@ pub fn gen_batch_case(check: &str, seed: u64, family: &str, tier: Tier, with_fil
         }
     }
     batches.retain(|b| !b.is_empty());
+    // some users estimate the weight of some of their queries themselves (no load-balancer plugin): a batch that
+    // mixes queries with and without an estimate (round 6; a stream of its own, the other knobs stay as they were)
+    let mut r3 = Rng::new(seed ^ fnv64("weight-estimates"));
+    if pc.lb.is_none() && r3.chance(0.25) {
+        for b in batches.iter_mut() {
+            for q in b.iter_mut() {
+                if q.is_object() && r3.chance(0.5) {
+                    q["query_weight_estimate"] = json!(many_digits(&mut r3, 0.1, 50.0));
+                }
+            }
+        }
+    }
     if batches.len() >= 2 && w.out.is_some() && r.chance(0.4) {
         // every run() call names its own output policy: the first file, the second, both or none
         let top = if w.out2.is_some() { 4 } else { 2 };
